@@ -244,6 +244,16 @@ fn payload_from_name(s: &str) -> Payload {
 
 pub const OFFSETS: [usize; 2] = [0, 1000];
 
+/// Some(description) iff the reference reading of the grammar text and the reader of the emitted type definitions
+/// both succeed and disagree on the shape of a type (the oracle of C06, re-used as a tie-breaker by C02).
+fn declared_shape_difference(grammar_text: &str, emitted: &str) -> Option<String> {
+    let toks = crate::reftok::tokenize(grammar_text).ok()?;
+    let file = crate::refparse::read_file(&toks).ok()?;
+    let (spec, nm) = crate::spec::from_rfile(&file)?;
+    crate::emitted::read_types(emitted).ok()?;
+    crate::props::hygiene::c06_text(&spec, &nm, emitted).err()
+}
+
 /// Compiles and runs one case and judges it for property `which`. Returns the per-input expectations for statistics.
 pub fn judge_case(ctx: &Ctx, c: &E2Case, which: Which) -> Result<Vec<Expect>, Failure> {
     let cfg = c.spec.cfg();
@@ -275,11 +285,23 @@ pub fn judge_case(ctx: &Ctx, c: &E2Case, which: Which) -> Result<Vec<Expect>, Fa
         std::fs::write(scratch.dir.join("alone.rs"), "#![allow(warnings)]\npub struct Pos(pub usize);\n#[path = \"g.rs\"]\npub mod m;\n").ok();
         let alone = e2::rustc(&scratch.dir, "alone.rs", "alone.rmeta", true);
         if alone.ok {
-            return match which {
-                // the client destructures every type in the declared shape; if only the client fails the shapes differ (C06 decides);
-                // for the behavioural properties this is a harness-side problem
-                _ => Err(Failure::internal("client-does-not-compile", first_errors(&comp.diagnostics), case0)),
-            };
+            // The client destructures every node in the declared shape. If only the client fails AND the independent
+            // reader of the emitted type definitions finds them different from the declarations (a used field dropped,
+            // a `_` field kept, ...), the returned value cannot be the derivation tree: C02 is violated. Otherwise the
+            // harness is to blame and the case is inconclusive.
+            if which == Which::C02 {
+                if let Some(diff) = declared_shape_difference(&c.text, &emitted) {
+                    return Err(Failure::new(
+                        "tree-type-cannot-hold-derivation",
+                        format!(
+                            "the emitted tree types differ from the declared fieldsets, so no returned value can be the derivation tree: {diff}\n(client errors: {})",
+                            first_errors(&comp.diagnostics)
+                        ),
+                        case0,
+                    ));
+                }
+            }
+            return Err(Failure::internal("client-does-not-compile", first_errors(&comp.diagnostics), case0));
         }
         return match which {
             Which::C01 => Err(Failure::new(
